@@ -519,11 +519,26 @@ func (r *c07Runner) Step(t []string, raw string) string {
 		r.stats.Inc("rejected")
 	}
 	tree := "-"
+	lexErrs, parseErrs := 0, 0
 	if strings.TrimSpace(q) != "" {
 		tree, _ = antlrTreeTyped(strings.TrimSpace(q))
+		// the raw ANTLR run (no DAWGS listener): recognition errors of lexer and parser; characters the lexer skipped
+		lexErrs, parseErrs = antlrErrorCounts(strings.TrimSpace(q))
+		if skipped := lexerSkipped(strings.TrimSpace(q)); len(skipped) > 0 {
+			r.stats.Inc("input_with_skipped_characters")
+			if acc == 1 {
+				// a character that belongs to no token is content the model cannot hold
+				for _, c := range skipped {
+					lost = append(lost, "stray:"+c)
+				}
+				if tok == "same" {
+					tok = "differ"
+				}
+			}
+		}
 	}
-	return fmt.Sprintf("acc=%d nil=%d syn=%d other=%d unsup=[%s] fmt=%s rt=%s tok=%s lost=[%s] gained=[%s] ranges=%s model=%s tree=%s",
-		acc, isNil, syn, other, strings.Join(unsup, ","), strings.ReplaceAll(fmtText, " ", "␠"), rt, tok, clip(lost, 8), clip(gained, 8), ranges,
+	return fmt.Sprintf("acc=%d nil=%d syn=%d other=%d raw=%d lexerr=%d unsup=[%s] fmt=%s rt=%s tok=%s lost=[%s] gained=[%s] ranges=%s model=%s tree=%s",
+		acc, isNil, syn, other, lexErrs+parseErrs, lexErrs, strings.Join(unsup, ","), strings.ReplaceAll(fmtText, " ", "␠"), rt, tok, clip(lost, 8), clip(gained, 8), ranges,
 		f64Re.ReplaceAllString(strings.ReplaceAll(modelSx, "\n", " "), "(f64 ?)"), tree)
 }
 
@@ -1013,6 +1028,46 @@ func (c07Suite) Gen(rng *Rng, tier string, w *bufio.Writer, stats *Stats) {
 	for _, q := range multiPartShapes(rng, nmp) {
 		emit("multipart", q)
 	}
+	// (a) stray characters (no lexer rule) attached to token edges of corpus queries
+	stats.Counters["stray_character_classes"] = int64(len(strayChars()))
+	for ci, c := range corpus {
+		if thorough && ci%4 == 0 {
+			for _, s := range strayInsertions(rng, c.Query, 0, true) {
+				emit("stray:"+c.Source, s)
+			}
+			continue
+		}
+		k := 1
+		if thorough {
+			k = 4
+		}
+		for _, s := range strayInsertions(rng, c.Query, k, false) {
+			emit("stray:"+c.Source, s)
+		}
+	}
+	for _, ch := range strayChars() {
+		// every class at least once, at the end and in the middle of a token sequence
+		emit("stray:class", "match (n) return n"+ch)
+		emit("stray:class", "match (n"+ch+") where n.a = 1"+ch+" return n")
+	}
+	// (b) numeric literals over the whole double range and around +-2^63 in every literal position
+	npos := 2
+	if thorough {
+		npos = 9
+	}
+	for _, s := range numericCases(rng, npos) {
+		emit("num", s)
+	}
+	// (c) multi-byte / invalid UTF-8 payloads inside every unsupported construct and error path
+	npay := 2
+	if thorough {
+		npay = 30
+	}
+	pcs, uncovered := payloadCases(rng, npay)
+	for _, s := range pcs {
+		emit("payload", s)
+	}
+	stats.Counters["unsupported_rules_without_template"] = int64(len(uncovered))
 	g, err := loadG4()
 	if err != nil {
 		stats.Inc("grammar_load_failed")
